@@ -33,14 +33,17 @@ def main():
             if not open_names:
                 break
             rb = eng.verify_function(q, mutate=mut, bound=K)
-            obs = [o for o in rb.obligations if o.name in open_names]
+            obs = [o for o in rb.obligations if o.name in open_names or (any('/inv-' in n for n in open_names) and o.kind in ('post','raises'))]
             resb = solve.discharge(obs, 'quick')
             for o, x in zip(obs, resb):
-                print('  bounded K=%d %-60s %s %s %.2fs' % (K, o.name, x['verdict'], x['backend'], x['seconds']))
+                if x['verdict'] != 'unsat':
+                    print('  bounded K=%d %-60s %s %s %.2fs' % (K, o.name, x['verdict'], x['backend'], x['seconds']))
                 if x['verdict'] == 'sat':
                     open_names.discard(o.name)
                     if verbose and x['model']:
+                        print('       path:', o.info.get('trace'))
                         for k, v in sorted(x['model'].items()):
-                            print('      ', k, '=', v[:300])
+                            if '-vv' in sys.argv or k.startswith('p_') or k == 'NOW':
+                                print('      ', k, '=', v[:300])
 
 main()
